@@ -50,6 +50,8 @@ func getSwapOutReceiverStates() States {
 				Event_ActionFailed:    State_SendCancel,
 				Event_ActionSucceeded: State_SwapOutReceiver_AwaitFeeInvoicePayment,
 			},
+			// The fee-invoice timeout does not survive a restart.
+			FailOnrecover: true,
 		},
 		State_SwapOutReceiver_AwaitFeeInvoicePayment: {
 			Action: &AwaitFeeInvoicePayment{},
